@@ -60,6 +60,25 @@ CHECKS = {
              "model, and across histories.  H3 recomputes the cached type profile after every push/pop/drop/copy of every stack in the run.",
         note="?match is judged on a portable ERE subset; cross-type/cross-domain order cells are skipped.  Arity-2 pairs are sampled in the quick tier, exhaustive in thorough.",
         design="DESIGN.md 5-C11"),
+    "C12": dict(
+        technique="purity monitor over recorded API histories: every pull of every interleaved result set vs the sequence of a fresh process",
+        category="exploration",
+        text="In one long-lived process a generated text is compiled twice (after other texts with parser-side state), executed on 1-3 input stacks at once, "
+             "and the pulls/destroys of the live result sets are interleaved (all interleavings when few, sampled otherwise; also the query destroyed while a "
+             "result is live); the serialised outcome of every pull must equal the corresponding element of the sequence a freshly started process yields for "
+             "the same text and input, and the input stack must be unchanged.  All ordered pairs of texts with parser-side state are compiled in one process; "
+             "a Dwarf value is reused across interleaved executions of producers with internal caches.",
+        note="Assumes determinism of a fresh process as the reference.  Both sides are the real engine.",
+        design="DESIGN.md 5-C12"),
+    "C13": dict(
+        technique="ASan+UBSan+LeakSanitizer (explicit recoverable leak checks) + scon shadow-map lifecycle hook under enumerated abandonment and injected failures; valgrind memcheck subset",
+        category="fault_enumeration",
+        text="Every generated program's result set is abandoned after every k = 0..n+1 pulls (query destroyed before or after the result) and a run-time failure "
+             "is injected at every one of its first 40 state accesses (the step budget throws out of the engine), every token of generated queries is deleted in turn "
+             "and the rejected queries leak-checked separately from accepted ones, DWARF producers are abandoned on the sample files; sanitizer reports and hook "
+             "aborts are fatal, LeakSanitizer is polled after batches whose API objects were all destroyed.  All other properties' checks run on the same build.",
+        note="ASan misses intra-object overflows and reuse after quarantine; memcheck and libFuzzer are thorough-only.  Known finding F8 (rejected queries leak under yyparse/yylex) is matched by allocation site.",
+        design="DESIGN.md 5-C13"),
     "C15": dict(
         technique="metamorphic notation monitor: original vs rewritten program on the real engine, simplify on/off",
         category="exploration",
